@@ -120,6 +120,7 @@ struct PendingState {
 
 struct ActiveState {
     local_nonce: u32,
+    remote_nonce: u32,
     half_connection: half_connection::HalfConnection,
     timeout_time_ms: u64,
     disconnect_signal: Option<DisconnectMode>,
@@ -469,6 +470,7 @@ impl Client {
 
                     self.state = State::Active(ActiveState {
                         local_nonce: state.local_nonce,
+                        remote_nonce: frame.nonce,
                         half_connection,
                         timeout_time_ms: now_ms + self.config.endpoint_config.active_timeout_ms,
                         disconnect_signal: None,
@@ -480,8 +482,13 @@ impl Client {
                 // the nonce ack matches ours (and ignore it otherwise). This case is only
                 // encountered when our initial ACK was dropped - all that matters is that the
                 // server receives an ACK.
+                //
+                // A SYN+ACK carrying another server nonce belongs to a different handshake on the
+                // server's side (the server forgot the first one and was then reached by a
+                // duplicate of our SYN). Acknowledging it would establish a server-side connection
+                // whose sequence numbers this connection does not share.
 
-                if frame.nonce_ack == state.local_nonce {
+                if frame.nonce_ack == state.local_nonce && frame.nonce == state.remote_nonce {
                     let reply = frame::Frame::HandshakeAckFrame(frame::HandshakeAckFrame {
                         nonce_ack: frame.nonce,
                     });
